@@ -107,6 +107,7 @@ def run(prog: Program, rep: Report, tier: str):
 
 
 def dino(prog: Program, rep: Report):
+    prog = prog.raw  # _generate_mask / _mask_block are summarised as units (budget handed over, count returned)
     C = prog.cls("KDDinoMaskCollator")
     rep.rule("G8.dino-budget", "KDDinoMaskCollator: masks are generated only for the first int(batch_size * num_views * mask_prob) "
              "entries of a list of batch_size * num_views empty masks (all others stay empty); _generate_mask hands _mask_block the "
@@ -243,6 +244,7 @@ def _returns_batch(rep: Report, fa: FA, fi: FuncInfo, clause: str):
 
 
 def ijepa(prog: Program, rep: Report):
+    prog = prog.raw  # the _sample_* helpers are summarised as units (which generator they draw from), not inlined
     C = prog.cls("KDIjepaMaskCollator")
     rep.rule("G4.step-seeded-sizes", "KDIjepaMaskCollator: the generator that draws the block sizes is torch.Generator().manual_seed("
              "self.step()); _sample_block_size draws only from the generator it is given; step() increments the shared counter "
